@@ -240,6 +240,13 @@ META = {
     "C18-addrinfo-leaked-on-oom": ("C18", "p_socket_address_new returns before freeaddrinfo when the conversion allocation fails; needs an IPv6 literal and that allocation to fail - the libc list leaks"),
     "C19-accept-eintr-retry-dropped": ("C19", "the EINTR retry after accept() was dropped; needs a handled signal during accept on a blocking socket - accept fails with an interrupted-call error"),
     "C20-shm-take-ownership-forgets-semaphore": ("C20", "p_shm_take_ownership no longer passes ownership to the guarding semaphore; needs a non-creator taking ownership then free - the named semaphore stays in the system"),
+    # round 12 (six seeders on the properties with the newest clauses)
+    "C06-sysv-clean-keeps-ownership-flag": ("C06", "System V clean_handle no longer resets sem_created; needs a handle that owned the set, the set removed and re-created by others, then acquire/release - the recovery path re-initialises the live counter and owns the set again"),
+    "C07-sysv-lock-semaphore-reset-by-every-opener": ("C07", "System V semaphore create path does SETVAL for every opener; needs a second shm handle opened while the first holds the lock - the lock semaphore is reset to 1 and both enter"),
+    "C09-buflen-cast-to-socklen-again": ("C09", "P_SOCKET_BUFLEN_CAST casts to socklen_t; needs a buffer length of 2^32 or more - the native call gets the length modulo 2^32"),
+    "C10-socket-created-without-cloexec-flag": ("C10", "p_socket_new no longer passes SOCK_CLOEXEC, only the later fcntl; needs another thread to fork + exec between socket() and fcntl()"),
+    "C16-boolean-getter-returns-raw-number": ("C16", "the boolean getter returns (pboolean) atoi (val); needs a numeric text other than 0/1 - \"2\" is not TRUE, \"-1\" is truthy"),
+    "C17-text-length-prefilter": ("C17", "p_socket_address_new rejects strings of INET6_ADDRSTRLEN or more before parsing; needs a fully written scoped IPv6 literal (46+ characters), which getaddrinfo accepts"),
 }
 
 
